@@ -12,7 +12,7 @@ import run  # noqa
 ns = {}
 exec(open(probe_file).read(), ns)
 PROBES = ns["PROBES"]
-run.SCRATCH = "/tmp/wt/probe-%d" % os.getpid()
+run.SCRATCH = "/tmp/wtpriv/probe-%d" % os.getpid()
 jobs = min(8, len(PROBES))
 import queue
 q = queue.Queue()
